@@ -44,3 +44,18 @@ def find(prop, name):
         if c.name == name:
             return c
     raise KeyError((prop, name))
+
+
+def cfg_pins(pins):
+    """Drop pin combinations that no canonical production table satisfies (they would be vacuous shards):
+    unused symbol slots are 0 (an epsilon body has no first symbol) and the productions are sorted."""
+    out = []
+    for p in pins:
+        if p.get("l0") == 0 and p.get("s0", 0) != 0:
+            continue
+        if p.get("l0") in (0, 1) and p.get("s1", 0) != 0:
+            continue
+        if "h0" in p and "h1" in p and p["h1"] < p["h0"]:
+            continue
+        out.append(p)
+    return out
